@@ -11,6 +11,8 @@ B == N("cmake", FALSE, FALSE, TRUE, "", 4)
 da == N("a", FALSE, FALSE, FALSE, "", 2)
 db == N("b", FALSE, FALSE, FALSE, "", 3)
 dout == N("out", FALSE, FALSE, FALSE, "", 7)
+dab == N("ab", FALSE, FALSE, FALSE, "", 2)                 \* sibling of "a" whose name begins like it
+XY == N("x-y.cmake", TRUE, TRUE, TRUE, "x-y", 7)             \* sorts before x.cmake ('-' < '.')
 doutold == N("out-old", FALSE, FALSE, FALSE, "", 7)      \* a sibling whose name merely begins like the output directory's
 
 \* trees: Mk(files, children) where children maps a directory name to a subtree
@@ -26,24 +28,26 @@ Leaves == {Leaf(f) : f \in LeafFiles}
 \* one level below the input directory: a directory that may itself have sub-directories a / b
 Mids == Leaves \cup {Mk(f, (db :> l)) : f \in {{}, {X}, {T}}, l \in {Leaf({X}), Leaf({}), Leaf({Y, X})}}
               \cup {Mk({X}, (da :> Leaf({Z})) @@ (db :> Leaf({X})))}
-RootFiles == {{X}, {X, Z, T}, {X, Y, B}}
+RootFiles == {{X}, {X, Z, T}, {X, Y, B}, {X, XY}}
 MCTrees == {Mk(f, NoCh) : f \in RootFiles}
            \cup {Mk(f, (da :> m)) : f \in RootFiles, m \in Mids}
            \cup {Mk(f, (da :> m) @@ (db :> l)) : f \in {{X}, {X, Z, T}}, m \in Mids, l \in {Leaf({X}), Leaf({T}), Leaf({Z, Y})}}
 SmallTrees == {Mk(f, NoCh) : f \in RootFiles}
            \cup {Mk({X}, (doutold :> Leaf({Z})) @@ (da :> Mk({X}, (doutold :> Leaf({Z})))))}
            \cup {Mk({X, T}, (da :> Leaf({Y})) @@ (db :> Leaf({X})))}
+           \cup {Mk({X, XY}, (da :> Leaf({X})) @@ (dab :> Mk({Z}, (db :> Leaf({X})))))}
            \cup {Mk({X, Z, T}, (da :> m) @@ (db :> l)) : m \in {Leaf({X}), Leaf({T}), Mk({X}, (db :> Leaf({X}))), Mk({}, (db :> Leaf({X})))},
                                                            l \in {Leaf({X}), Leaf({Z}), Leaf({Z, Y})}}
 
-P(txt, comp, dironly) == [txt |-> txt, comp |-> comp, dironly |-> dironly, abs |-> <<FALSE, <<>>>>]
-Pabs(txt, path) == [txt |-> txt, comp |-> {}, dironly |-> FALSE, abs |-> <<TRUE, path>>]
-MCPatternSets == { {}, {P("x.cmake/", {"x.cmake"}, TRUE), P("b/", {"b"}, TRUE)}, {P("*.cmake/", {"x.cmake", "z.cmake", "d.e-f.cmake"}, TRUE)}, {P("a/", {"a"}, TRUE)}, {P("a/", {"a"}, TRUE), P("b", {"b"}, FALSE)}, {P("x.cmake", {"x.cmake"}, FALSE)},
+P(txt, comp, dironly) == [txt |-> txt, comp |-> comp, dironly |-> dironly, abs |-> <<FALSE, <<>>>>, parent |-> ""]
+Pabs(txt, path) == [txt |-> txt, comp |-> {}, dironly |-> FALSE, abs |-> <<TRUE, path>>, parent |-> ""]
+Pin(txt, parent, comp) == [txt |-> txt, comp |-> comp, dironly |-> FALSE, abs |-> <<FALSE, <<>>>>, parent |-> parent]
+MCPatternSets == { {}, {Pin("**/b/*.cmake", "b", {"x.cmake", "z.cmake", "x-y.cmake", "d.e-f.cmake"})}, {Pin("**/a/b", "a", {"b"})}, {P("x.cmake/", {"x.cmake"}, TRUE), P("b/", {"b"}, TRUE)}, {P("*.cmake/", {"x.cmake", "z.cmake", "x-y.cmake", "d.e-f.cmake"}, TRUE)}, {P("a/", {"a"}, TRUE)}, {P("a/", {"a"}, TRUE), P("b", {"b"}, FALSE)}, {P("x.cmake", {"x.cmake"}, FALSE)},
                    {P("x.cmake", {"x.cmake"}, FALSE), P("z.cmake", {"z.cmake"}, FALSE)}, {P("*.CMAKE", {"Y.CMAKE"}, FALSE)},
-                   {P("**/b", {"b"}, FALSE)}, {Pabs("@/a/x.cmake", <<da, X>>)}, {P("*.cmake", {"x.cmake", "z.cmake", "d.e-f.cmake"}, FALSE), P("n.txt", {"n.txt"}, FALSE)},
+                   {P("**/b", {"b"}, FALSE)}, {Pabs("@/a/x.cmake", <<da, X>>)}, {P("*.cmake", {"x.cmake", "z.cmake", "x-y.cmake", "d.e-f.cmake"}, FALSE), P("n.txt", {"n.txt"}, FALSE)},
                    {P("b/", {"b"}, TRUE), P("x.cmake", {"x.cmake"}, FALSE)} }
-SmallPatternSets == { {}, {P("x.cmake/", {"x.cmake"}, TRUE), P("b/", {"b"}, TRUE)}, {P("z.cmake", {"z.cmake"}, FALSE)}, {P("a/", {"a"}, TRUE), P("b", {"b"}, FALSE)}, {P("x.cmake", {"x.cmake"}, FALSE), P("z.cmake", {"z.cmake"}, FALSE)},
-                      {P("*.cmake", {"x.cmake", "z.cmake", "d.e-f.cmake"}, FALSE)} }
+SmallPatternSets == { {}, {Pin("**/b/*.cmake", "b", {"x.cmake", "z.cmake", "x-y.cmake", "d.e-f.cmake"})}, {P("x.cmake/", {"x.cmake"}, TRUE), P("b/", {"b"}, TRUE)}, {P("z.cmake", {"z.cmake"}, FALSE)}, {P("a/", {"a"}, TRUE), P("b", {"b"}, FALSE)}, {P("x.cmake", {"x.cmake"}, FALSE), P("z.cmake", {"z.cmake"}, FALSE)},
+                      {P("*.cmake", {"x.cmake", "z.cmake", "x-y.cmake", "d.e-f.cmake"}, FALSE)} }
 MCOutSub == [top |-> <<dout>>, sub |-> <<da, dout>>]
 NoDev == {}
 CurrentDev == {}
